@@ -1,19 +1,115 @@
 (* C03 - Tolerated-failure threshold stops new sequences and decides outcomes.
-   Only statements, `exact`, Print Assumptions.  (Engine-level theorem c03_tolerance: being added.) *)
+
+   Only statements, `exact`, Print Assumptions.
+
+   MonC03.mon_tol is the formal statement of the property over an observed trace (clauses [1]-[13] in the header of
+   coq/c03/MonC03.v: #failed <= tol + conc; a sequence starts only under the launch condition
+   I < conc /\ (tol < 0 \/ f + I <= tol + conc - 1) and only while the block is Running; with conc = 1 nothing happens
+   in any sequence after the (tol+1)-th failure; sequences go NotStarted -> Running -> Completed|Failed once; a
+   never-started sequence invokes nothing and is only written NotStarted; the block is written Failed only with a cause
+   (f > tol >= 0, one of its pre/cont/post/deferred groups Failed, or the plan's continuous group Failed), Completed only
+   without one, and only when nothing is in flight; after a Failed block no later block has any event and the plan's
+   terminal write and the released plan say Failed; the released plan shows the block's last written status).
+
+   c03_tolerance:  every trace the observable engine automaton (coq/engine: step / run / init) accepts, for EVERY shape,
+   EVERY trace and EVERY interleaving, satisfies the monitor (prefix-closed form: no release needed).  Proof: product
+   invariant R (MonC03Proofs.v: Sync / Ahead modes, Mem) over the reachable-state invariant Inv (InvC03.v), kept by every
+   handler (through the abstract view InvC03.trans), by every epsilon-move and by stutter writes; induction on the trace
+   by AutoLemmas.product_run. *)
 From Coq Require Import List ZArith Bool Arith.
 From Coercion.Base Require Import Plan.
-From Coercion.Limiter Require Limiter.
+From Coercion.Engine Require Import Shape Event PlanSM Accept.
+From Coercion.C03 Require Import MonC03 MonC03Proofs.
+From Coercion.Limiter Require Limiter LimiterExamples.
 From Coercion.Limiter Require Mechanisms.
 Import ListNotations.
 
-(* ---- the mechanism (detailed model of ExecuteSequences with its unobservable steps, coq/limiter) ---- *)
+Theorem c03_tolerance :
+  forall (sh : shape) (tr : list event) (s : st),
+    shape_wf sh = true -> run sh init tr = Some s -> mon_tol (sh, tr) = true.
+Proof. exact c03_tolerance_wf. Qed.
+Print Assumptions c03_tolerance.
+
+(* the same without the well-formedness premise (Concurrency >= 1 is not needed for this property) *)
+Theorem c03_tolerance_any_shape :
+  forall (sh : shape) (tr : list event) (s : st),
+    run sh init tr = Some s -> mon_tol (sh, tr) = true.
+Proof. exact c03_tolerance_l. Qed.
+Print Assumptions c03_tolerance_any_shape.
+
+(* at a release: the released plan shows the running block with the status last written for it (whose writes the
+   monitor has checked: Failed only with a cause, Completed only without), and the plan Failed if that block Failed *)
+Theorem c03_release :
+  forall (sh : shape) (tr : list event) (fin : image) (s : st),
+    run sh init (tr ++ [EvRelease fin]) = Some s ->
+    exists m : mst,
+      mon_run sh m0 tr = Some m /\
+      (forall c : nat, m_cur m = Some c -> fin_is fin (OBlock c) (m_bst m) = true) /\
+      (m_bst m = Failed -> fin_is fin OPlan Failed = true).
+Proof. exact c03_release_l. Qed.
+Print Assumptions c03_release.
+
+(* ---- the mechanism: detailed model of ExecuteSequences WITH its unobservable steps (coq/limiter/Limiter.v:
+   main loop check-exceeded / acquire-slot / spawn; worker inner re-check / run / terminal write / failures.Add /
+   release-slot).  Re-stated from coq/limiter/props/Mechanisms.v, which lib/props/mech.py re-checks and ties to the
+   statement order of the source on every run of this check. ---- *)
 Module Mech.
-Import Limiter.
+Import Limiter LimiterExamples.
 Open Scope Z_scope.
 
-Theorem c03_mech_failed_bound : forall (c : cfg) (s : st),
+(* the launch condition of the monitor is what the mechanism guarantees at every sequence START *)
+Theorem c03_mech_launch_guard : forall (c : cfg) (s : Limiter.st) (i : nat) (s' : Limiter.st),
+  (1 <= conc c)%nat -> reach c s ->
+  step c s (AWork i) = Some s' -> nth_error (wk s) i = Some WReady ->
+  (in_flight s < conc c)%nat /\
+  (tol c < 0 \/ failed c s + Z.of_nat (in_flight s) <= tol c + Z.of_nat (conc c) - 1).
+Proof. exact Mechanisms.L.limiter_launch_guard. Qed.
+Print Assumptions c03_mech_launch_guard.
+
+(* #failed <= tol + conc at all times (max with the failures already present at entry: recovery) *)
+Theorem c03_mech_failed_bound : forall (c : cfg) (s : Limiter.st),
   (1 <= conc c)%nat -> reach c s -> 0 <= tol c ->
   failed c s <= Z.max (Z.of_nat (F0 c)) (tol c + Z.of_nat (conc c)).
 Proof. exact Mechanisms.L.limiter_failed_bound. Qed.
 Print Assumptions c03_mech_failed_bound.
+
+(* the bound is attained: n = 3, conc = 2, tol = 1, all sequences failing: 3 failed *)
+Theorem c03_mech_failed_bound_attained :
+  exists acts s tr, exec c_tight (Limiter.init c_tight) acts = Some (s, tr) /\
+                    failed c_tight s = tol c_tight + Z.of_nat (conc c_tight).
+Proof. exact Mechanisms.L.limiter_failed_bound_attained. Qed.
+Print Assumptions c03_mech_failed_bound_attained.
+
+(* entry failures already beyond the tolerance (recovery): nothing is ever started *)
+Theorem c03_mech_precounted_exceeded_no_start : forall (c : cfg) (s : Limiter.st),
+  (1 <= conc c)%nat -> reach c s -> 0 <= tol c -> tol c < Z.of_nat (F0 c) ->
+  started s = 0%nat /\ failed c s = Z.of_nat (F0 c).
+Proof. exact Mechanisms.L.limiter_precounted_exceeded_no_start. Qed.
+Print Assumptions c03_mech_precounted_exceeded_no_start.
+
+(* Concurrency 1: a sequence starts only with nothing in flight and at most tol failures *)
+Theorem c03_mech_conc1_stops : forall (c : cfg) (s : Limiter.st) (i : nat) (s' : Limiter.st),
+  (1 <= conc c)%nat -> conc c = 1%nat -> 0 <= tol c -> reach c s ->
+  step c s (AWork i) = Some s' -> nth_error (wk s) i = Some WReady ->
+  in_flight s = 0%nat /\ failed c s <= tol c.
+Proof. exact Mechanisms.L.limiter_conc1_stops. Qed.
+Print Assumptions c03_mech_conc1_stops.
+
+(* at exit nothing is in flight, every failure is counted, and the tolerance verdict is exact *)
+Theorem c03_mech_verdict : forall (c : cfg) (s : Limiter.st) (e : exitk),
+  (1 <= conc c)%nat -> waits c = true -> reach c s -> pc s = MExit e ->
+  in_flight s = 0%nat /\ started s = ended s /\ fcnt s = failed c s /\
+  (e = ETol -> 0 <= tol c /\ tol c < failed c s) /\
+  (e = EPost -> tol c < 0 \/ failed c s <= tol c) /\
+  (e <> ECont -> (e = ETol <-> 0 <= tol c /\ tol c < failed c s)).
+Proof. exact Mechanisms.L.limiter_verdict. Qed.
+Print Assumptions c03_mech_verdict.
+
+(* with per-sequence outcomes fixed and no continuous failure, whether the block fails for tolerance does not
+   depend on the schedule: Failed iff the would-fail sequences exceed the tolerance *)
+Theorem c03_mech_block_verdict_schedule_independent : forall (c : cfg) (s : Limiter.st) (e : exitk),
+  (1 <= conc c)%nat -> reach c s -> pc s = MExit e -> e <> ECont ->
+  (e = ETol <-> 0 <= tol c /\ tol c < Z.of_nat (F0 c) + Z.of_nat (would_fail c)).
+Proof. exact Mechanisms.L.block_verdict_schedule_independent. Qed.
+Print Assumptions c03_mech_block_verdict_schedule_independent.
 End Mech.
